@@ -477,7 +477,17 @@ func (r *c16MRun) add(f c16Frame) {
 			if !dup {
 				r.known[f.Seq] = f
 			}
-			n, _ := r.unretired()
+			// What counts against the limit are the connection IDs at or above the highest Retire Prior To
+			// the peer has sent, this frame's included (RFC 9000, 5.1.1: a peer may exceed the limit
+			// temporarily if the same frame requires the retirement of the excess), minus those the
+			// endpoint has already reported as retired.
+			rpt := max(r.maxRPT, f.RPT)
+			n := 0
+			for s := range r.known {
+				if r.reported[s] == 0 && s >= rpt {
+					n++
+				}
+			}
 			r.outcome = "limit-error"
 			if n <= r.adv {
 				// Input class: a queue polluted by re-queued duplicates (see suffix) explains the error if
